@@ -22,7 +22,7 @@ RULE = ('Cases: n 1..24; F from classes {zero, nilpotent chain, stable, unstable
 ASSUMPTIONS = ['tolerance c*eps*n*(1+log2 scaling)*|exp(|F|dt)|^2*max(|Q|dt, tiny); c fixed, calibrated',
                'x87 longdouble (64-bit mantissa) available; mpmath 60 digits']
 
-F_CLASSES = ['zero', 'nilpotent', 'stable', 'unstable', 'skew', 'stiff', 'navlike']
+F_CLASSES = ['zero', 'nilpotent', 'stable', 'unstable', 'skew', 'stiff', 'navlike', 'diagonal', 'blockdiag']
 Q_CLASSES = ['zero', 'rank1', 'singular', 'full', 'diag', 'identity']
 DT_CHOICES = [0.0, 1e-6, 1e-3, 0.01, 0.1, 0.5, 1.0, 2.0, 5.0, 10.0]
 
@@ -102,6 +102,23 @@ def build(case):
             A = rng.randn(n, n)
             s = 10.0 ** rng.uniform(-3, 0, n)
             F = (A * s[:, None]) - np.diag(10.0 ** rng.uniform(-3, 0, n))
+        elif fc == 'diagonal':       # independent first-order Gauss-Markov / random-walk states: distinct, repeated and zero rates
+            d = -10.0 ** rng.uniform(-2, 0, n) * np.where(rng.rand(n) < 0.8, 1.0, -1.0)
+            d[rng.rand(n) < 0.2] = 0.0
+            if n > 2 and rng.rand() < 0.5:
+                d[1] = d[0]
+            F = np.diag(d)
+        elif fc == 'blockdiag':      # 2x2 oscillator / 1x1 decay blocks
+            F = np.zeros((n, n))
+            i = 0
+            while i < n:
+                if i + 1 < n and rng.rand() < 0.6:
+                    w, z = rng.uniform(0.1, 2), rng.uniform(0, 0.5)
+                    F[i:i + 2, i:i + 2] = [[0, 1], [-w * w, -2 * z * w]]
+                    i += 2
+                else:
+                    F[i, i] = -rng.uniform(0, 1)
+                    i += 1
         nrm = np.abs(F).sum(axis=1).max()
         if nrm > 0 and dt > 0:
             F = F * (target / (nrm * dt))
@@ -272,7 +289,65 @@ def run_composition(case, ctx):
                         and tq < 1e-6 * max(np.abs(Qd_all).max(), 1e-300))
 
 
+def history_strategy():
+    op = st.tuples(st.sampled_from(['same', 'mutate_F', 'mutate_Q', 'scale_F', 'new_dt', 'old_dt', 'fresh']), st.integers(0, 10 ** 6))
+    return st.fixed_dictionaries({'base': case_strategy(), 'ops': st.lists(op, min_size=2, max_size=8)})
+
+
+def run_history(case, ctx):
+    """A sequence of calls on the SAME F / Q buffers, changed in place between calls (how a filter loop with preallocated
+    matrices uses the function): every result must be the exact answer for the values passed at that call, whatever was
+    passed before (no result may depend on earlier calls), judged against the own reference."""
+    from pyins import kalman
+    base = dict(case['base'])
+    base['n'] = min(base['n'], 8)
+    base['store'] = 'float'
+    F, Q, dt = build(base)
+    if dt == 0:
+        dt = 0.5
+    n = len(F)
+    _labels(ctx, base, F, Q, dt)
+    dts = [dt]
+
+    def judge(tag):
+        Phi, Qd = ctx.sut(kalman.compute_process_matrices, F, Q, dts[-1])
+        Pr, Qr = lg.discretise_ld(F, Q, dts[-1])
+        tol_phi, tol_q, nE = tolerances(F, Q, dts[-1])
+        eP, eQ = np.abs(Phi - np.asarray(Pr, float)).max(), np.abs(Qd - np.asarray(Qr, float)).max()
+        ctx.stat('history_phi', eP / tol_phi)
+        ctx.check(eP <= tol_phi, 'history_transition', lambda: f'after {tag}: |Phi-ref|={eP:.3e} tol={tol_phi:.3e} (result depends on earlier calls?)')
+        ctx.check(eQ <= tol_q + 1e-300, 'history_noise_integral', lambda: f'after {tag}: |Qd-ref|={eQ:.3e} tol={tol_q:.3e} (result depends on earlier calls?)')
+        return Phi, Qd
+
+    prev = judge('first call')
+    kinds = []
+    for kind, sub in case['ops']:
+        rng = np.random.RandomState(sub)
+        i, j = rng.randint(n), rng.randint(n)
+        if kind == 'mutate_F':
+            F[i, j] += rng.choice([-1, 1]) * rng.uniform(0.05, 0.5) / dts[-1] / 4
+        elif kind == 'scale_F':
+            F *= rng.choice([0.5, 2.0]) if np.abs(F).sum(axis=1).max() * dts[-1] < 4 else 0.5
+        elif kind == 'mutate_Q':
+            v = rng.randn(n) * np.sqrt(max(np.abs(Q).max(), 10.0 ** base['qexp']))
+            Q += np.outer(v, v)                 # stays symmetric PSD
+        elif kind == 'new_dt':
+            dts.append(float(dts[-1] * rng.choice([0.5, 0.25, 1.5])))
+        elif kind == 'old_dt':
+            dts.append(dts[rng.randint(len(dts))])
+        elif kind == 'fresh':
+            F, Q = F.copy(), Q.copy()
+        out = judge(kind)
+        if kind == 'same':
+            ctx.check(bits_equal(out[0], prev[0]) and bits_equal(out[1], prev[1]), 'repeat_differs', 'the same call twice gives different bits')
+        prev = out
+        kinds.append(kind)
+    ctx.label(f'ops={len(kinds)}')
+    ctx.mark_nontrivial(any(k.startswith('mutate') or k == 'scale_F' for k in kinds) and noncommuting(F, Q))
+
+
 CLAUSES = [
+    Clause('history', history_strategy, run_history, quick=(160, 8), thorough=(6000, 16)),
     Clause('reference', case_strategy, run_reference, quick=(400, 8), thorough=(12000, 16)),
     Clause('composition', part_strategy, run_composition, quick=(240, 8), thorough=(8000, 16)),
 ]
